@@ -405,6 +405,12 @@ class NPFacade:
             return z
         return real_np.full(shape, fill_value, dtype=_dt(dtype), **kw)
 
+    def blackman(self, M):
+        """np.blackman with a symbolic length: the length is concretised by forking (every feasible length is a path)."""
+        if isinstance(M, SInt):
+            M = concretize_int(M)
+        return real_np.blackman(M)
+
     def arange(self, *a, **k):
         if "dtype" in k:
             k["dtype"] = _dt(k["dtype"])
@@ -604,6 +610,25 @@ class NPFacade:
                     best = i
             return best
         return real_np.argmin(a, *args, **kw)
+
+
+def concretize_int(x, lo=0, hi=4096):
+    """Fork until the symbolic integer has a single value on this path."""
+    c = ctx()
+    if c.model is None:
+        if c._check() != "sat":
+            from .core import Infeasible
+
+            raise Infeasible()
+        c.model = c._last_model
+    while True:
+        v = c.model.eval(x.e, model_completion=True).as_long()
+        if bool(x == v):
+            return v
+        # the other branch was taken: c.model was refreshed by branch()
+        if c.model is None:
+            c._check()
+            c.model = c._last_model
 
 
 def _sorted_rows(rows):
